@@ -196,6 +196,7 @@ const PP_HALF: &str = "qx := []; for (i <- 0 til 2 * qn) qx append= i; for (i <-
 const DD_SETUP: &str = "qx := {:[]}; for (i <- 0 til qn) qx[7] append= i";
 const DD_STRUCT_SETUP: &str = "struct Foo(fa, fb); qx := Foo({:[]}, 7); for (i <- 0 til qn) qx[fa][7] append= i";
 const PD_SETUP: &str = "qx := {}; qx[7] = []; for (i <- 0 til qn) qx[7] append= i";
+const WD_SETUP: &str = "qx := {7: [0] ** qn}";
 const DK_SETUP: &str = "qx := {\"a\": [0] ** qn}";
 const DLD_SETUP: &str = "qx := {\"a\": [{\"b\": [0] ** qn}]}";
 const SD_SETUP: &str = "struct Foo(fa, fb); qx := Foo({\"a\": [0] ** qn}, 7)";
@@ -650,6 +651,80 @@ fn families() -> Vec<Family> {
         Family { name: "tq_reverse", kind: Kind::List, setup: LIST_SETUP, work: "for (i <- 0 til qn) qx .= reverse",
             check: ls, expect: |s| format!("[{},0]", s.n), check_alias: la, expect_alias: orig_list,
             nelem: n_of, k: n_of, copied: flat, in_model: false },
+        // ------------------------------------------------------------------ less common LVALUE FORMS of op-assign
+        // (1) with-default target `(d[k] = default) f= v` on a plain dict, key PRESENT and holding a large collection:
+        // the slot must be dropped before the operator runs, exactly as for `d[k] f= v`
+        Family { name: "wd_append", kind: Kind::List, setup: WD_SETUP, work: "for (i <- 0 til qn) (qx[7] = []) append= i",
+            check: "[len(qx), len(qx[7]), sum(qx[7])]", expect: |s| format!("[1,{},{}]", 2 * s.n, tri(s.n)),
+            check_alias: "[len(qy[7]), sum(qy[7])]", expect_alias: orig_list,
+            nelem: n_of, k: n_of, copied: flat, in_model: false },
+        Family { name: "wd_concat", kind: Kind::List, setup: WD_SETUP, work: "for (i <- 0 til qn) (qx[7] = []) ++= [i]",
+            check: "[len(qx), len(qx[7]), sum(qx[7])]", expect: |s| format!("[1,{},{}]", 2 * s.n, tri(s.n)),
+            check_alias: "[len(qy[7]), sum(qy[7])]", expect_alias: orig_list,
+            nelem: n_of, k: n_of, copied: flat, in_model: false },
+        Family { name: "wd_addkey", kind: Kind::Dict, setup: "qx := {7: {}}; for (i <- 0 til qn) qx[7][i] = i",
+            work: "for (i <- qn til 2 * qn) (qx[7] = {}) |.= i",
+            check: "[len(qx[7]), sum(keys(qx[7]))]", expect: |s| format!("[{},{}]", 2 * s.n, tri(2 * s.n)),
+            check_alias: "[len(qy[7]), sum(keys(qy[7]))]", expect_alias: orig_dict,
+            nelem: n_of, k: n_of, copied: flat, in_model: false },
+        Family { name: "wd_int", kind: Kind::Dict, setup: DICT_SETUP, work: "for (i <- 0 til qn) (qx[i] = 0) += 1",
+            check: dv, expect: |s| format!("[{},{}]", s.n, tri(s.n) + s.n), check_alias: dva, expect_alias: orig_dict,
+            nelem: n_of, k: n_of, copied: flat, in_model: false },
+        Family { name: "uc_wd_push", kind: Kind::List, setup: "push2 := \\a, b -> (a append= b; a); qx := {7: [0] ** qn}",
+            work: "for (i <- 0 til qn) (qx[7] = []) push2= i",
+            check: "[len(qx), len(qx[7]), sum(qx[7])]", expect: |s| format!("[1,{},{}]", 2 * s.n, tri(s.n)),
+            check_alias: "[len(qy[7]), sum(qy[7])]", expect_alias: orig_list,
+            nelem: n_of, k: n_of, copied: flat, in_model: false },
+        Family { name: "wd_nested_list", kind: Kind::List, setup: "qx := [{7: [0] ** qn}]", work: "for (i <- 0 til qn) (qx[0][7] = []) ++= [i]",
+            check: "[len(qx[0][7]), sum(qx[0][7])]", expect: |s| format!("[{},{}]", 2 * s.n, tri(s.n)),
+            check_alias: "[len(qy[0][7]), sum(qy[0][7])]", expect_alias: orig_list,
+            nelem: n_of, k: n_of, copied: flat, in_model: false },
+        Family { name: "wd_dk", kind: Kind::List, setup: "qx := {\"a\": {7: [0] ** qn}}", work: "for (i <- 0 til qn) (qx[\"a\"][7] = []) append= i",
+            check: "[len(qx[\"a\"][7]), sum(qx[\"a\"][7])]", expect: |s| format!("[{},{}]", 2 * s.n, tri(s.n)),
+            check_alias: "[len(qy[\"a\"][7]), sum(qy[\"a\"][7])]", expect_alias: orig_list,
+            nelem: n_of, k: n_of, copied: flat, in_model: false },
+        Family { name: "wd_struct", kind: Kind::List, setup: "struct Foo(fa, fb); qx := Foo({7: [0] ** qn}, 7)",
+            work: "for (i <- 0 til qn) (qx[fa][7] = []) append= i",
+            check: "[len(qx[fa][7]), sum(qx[fa][7]), qx[fb]]", expect: |s| format!("[{},{},7]", 2 * s.n, tri(s.n)),
+            check_alias: "[len(qy[fa][7]), sum(qy[fa][7]), qy[fb]]", expect_alias: orig_struct,
+            nelem: n_of, k: n_of, copied: flat, in_model: false },
+        // the absent-key case (the reason the form exists): n new one-element rows
+        Family { name: "wd_absent", kind: Kind::List, setup: "qx := {}", work: "for (i <- 0 til qn) (qx[i] = []) append= i",
+            check: "[len(qx), sum(values(qx) map len)]", expect: |s| format!("[{},{}]", s.n, s.n),
+            check_alias: "[len(qy)]", expect_alias: |_| "[0]".into(),
+            nelem: n_of, k: n_of, copied: |_| (0, 0), in_model: false },
+        // (2) `and` target ("party trick"): `(a and b) f= v` applies the operator to every target; the values read up
+        // front must be MOVED into the operator, one target at a time (k counts the mutations: one per target)
+        Family { name: "and_append", kind: Kind::List, setup: "qx := [0] ** qn; qb := [1] ** qn", work: "for (i <- 0 til qn) (qx and qb) append= i",
+            check: "[len(qx), sum(qx), len(qb), sum(qb)]", expect: |s| format!("[{},{},{},{}]", 2 * s.n, tri(s.n), 2 * s.n, s.n + tri(s.n)),
+            check_alias: la, expect_alias: orig_list,
+            nelem: |s| 2 * s.n, k: |s| 2 * s.n, copied: flat, in_model: false },
+        Family { name: "and3_append", kind: Kind::List, setup: "qx := [0] ** qn; qb := [1] ** qn; qc := [2] ** qn",
+            work: "for (i <- 0 til qn) (qx and qb and qc) append= i",
+            check: "[len(qx), sum(qx), len(qb), sum(qb), len(qc), sum(qc)]",
+            expect: |s| format!("[{},{},{},{},{},{}]", 2 * s.n, tri(s.n), 2 * s.n, s.n + tri(s.n), 2 * s.n, 2 * s.n + tri(s.n)),
+            check_alias: la, expect_alias: orig_list,
+            nelem: |s| 3 * s.n, k: |s| 3 * s.n, copied: flat, in_model: false },
+        Family { name: "and_rows_concat", kind: Kind::List, setup: "qx := [[0] ** qn, [1] ** qn]", work: "for (i <- 0 til qn) (qx[0] and qx[1]) ++= [i]",
+            check: "[len(qx[0]), sum(qx[0]), len(qx[1]), sum(qx[1])]", expect: |s| format!("[{},{},{},{}]", 2 * s.n, tri(s.n), 2 * s.n, s.n + tri(s.n)),
+            check_alias: "[len(qy[0]), sum(qy[0]), len(qy[1]), sum(qy[1])]", expect_alias: |s| format!("[{},0,{},{}]", s.n, s.n, s.n),
+            nelem: |s| 2 * s.n, k: |s| 2 * s.n, copied: |s| (0, 2 * s.n + 2), in_model: false },
+        Family { name: "and_dict_addkey", kind: Kind::Dict,
+            setup: "qx := {1: {}, 2: {}}; for (i <- 0 til qn) (qx[1][i] = i; qx[2][i] = i)",
+            work: "for (i <- qn til 2 * qn) (qx[1] and qx[2]) |.= i",
+            check: "[len(qx[1]), len(qx[2]), sum(keys(qx[1]))]", expect: |s| format!("[{},{},{}]", 2 * s.n, 2 * s.n, tri(2 * s.n)),
+            check_alias: "[len(qy[1]), len(qy[2])]", expect_alias: |s| format!("[{},{}]", s.n, s.n),
+            nelem: |s| 2 * s.n, k: |s| 2 * s.n, copied: |s| (0, 2 * s.n), in_model: false },
+        Family { name: "and_int", kind: Kind::List, setup: "qx := 0; qb := 10", work: "for (i <- 0 til qn) (qx and qb) += 1",
+            check: "[qx, qb]", expect: |s| format!("[{},{}]", s.n, s.n + 10), check_alias: "[qy]", expect_alias: |_| "[0]".into(),
+            nelem: n_of, k: |s| 2 * s.n, copied: |_| (0, 0), in_model: false },
+        // (3) unpacking target `(a, b) f= v`: the operator is applied to the LIST [a, b] (both variables are dropped first,
+        // so a draining `map` hands each collection to the closure as its only holder); the `every` forms are observations
+        Family { name: "uc_unp_map", kind: Kind::List, setup: "push1 := \\a -> (a append= 1; a); qx := [0] ** qn; qb := [1] ** qn",
+            work: "for (i <- 0 til qn) (qx, qb) map= push1",
+            check: "[len(qx), sum(qx), len(qb), sum(qb)]", expect: |s| format!("[{},{},{},{}]", 2 * s.n, s.n, 2 * s.n, 2 * s.n),
+            check_alias: la, expect_alias: orig_list,
+            nelem: |s| 2 * s.n, k: |s| 2 * s.n, copied: flat, in_model: false },
     ]
 }
 
@@ -678,14 +753,50 @@ fn observation_families() -> Vec<(Family, &'static str)> {
             nelem: n_of, k: n_of, copied: flat, in_model: false },
          "`sort` rebuilds the whole list (one buffer of len elements per call), quadratic by design; `reverse`, `--`, \
           `&&` walk the whole container but allocate nothing and are judged (tq_*)"),
+        (Family { name: "obs_every_var", kind: Kind::List, setup: "qx := [0] ** qn", work: "for (i <- 0 til qn) every qx append= i",
+            check: "[len(qx), sum(qx)]", expect: |s| format!("[{},{}]", 2 * s.n, tri(s.n)),
+            check_alias: "[len(qy), sum(qy)]", expect_alias: |s| format!("[{},0]", s.n),
+            nelem: n_of, k: n_of, copied: flat, in_model: false },
+         "`every` op-assign is copy-on-write by construction on the unchanged tree: modify_every reads the variable into a local \
+          clone, lets the operator run on the pieces of the clone while the variable still holds the original, and assigns \
+          the clone back, so every collection the statement touches is copied once per statement"),
+        (Family { name: "obs_every_unp_append", kind: Kind::List, setup: "qx := [0] ** qn; qb := [1] ** qn", work: "for (i <- 0 til qn) every (qx, qb) append= i",
+            check: "[len(qx), sum(qx), len(qb), sum(qb)]", expect: |s| format!("[{},{},{},{}]", 2 * s.n, tri(s.n), 2 * s.n, s.n + tri(s.n)),
+            check_alias: "[len(qy), sum(qy)]", expect_alias: |s| format!("[{},0]", s.n),
+            nelem: |s| 2 * s.n, k: n_of, copied: flat, in_model: false },
+         "`every` op-assign is copy-on-write by construction on the unchanged tree: modify_every reads the variable into a local \
+          clone, lets the operator run on the pieces of the clone while the variable still holds the original, and assigns \
+          the clone back, so every collection the statement touches is copied once per statement"),
+        (Family { name: "obs_every_slice_append", kind: Kind::List, setup: "qx := [[0] ** qn, [1] ** qn, 5]", work: "for (i <- 0 til qn) every qx[0:2] append= i",
+            check: "[len(qx[0]), sum(qx[0]), len(qx[1]), sum(qx[1]), qx[2]]", expect: |s| format!("[{},{},{},{},5]", 2 * s.n, tri(s.n), 2 * s.n, s.n + tri(s.n)),
+            check_alias: "[len(qy[0]), len(qy[1])]", expect_alias: |s| format!("[{},{}]", s.n, s.n),
+            nelem: |s| 2 * s.n, k: n_of, copied: |s| (0, 2 * s.n + 3), in_model: false },
+         "`every` op-assign is copy-on-write by construction on the unchanged tree: modify_every reads the variable into a local \
+          clone, lets the operator run on the pieces of the clone while the variable still holds the original, and assigns \
+          the clone back, so every collection the statement touches is copied once per statement"),
+        (Family { name: "obs_every_slice_concat", kind: Kind::List, setup: "qx := [[0] ** qn, [1] ** qn, 5]", work: "for (i <- 0 til qn) every qx[0:2] ++= [i]",
+            check: "[len(qx[0]), sum(qx[0]), len(qx[1]), sum(qx[1]), qx[2]]", expect: |s| format!("[{},{},{},{},5]", 2 * s.n, tri(s.n), 2 * s.n, s.n + tri(s.n)),
+            check_alias: "[len(qy[0]), len(qy[1])]", expect_alias: |s| format!("[{},{}]", s.n, s.n),
+            nelem: |s| 2 * s.n, k: n_of, copied: |s| (0, 2 * s.n + 3), in_model: false },
+         "`every` op-assign is copy-on-write by construction on the unchanged tree: modify_every reads the variable into a local \
+          clone, lets the operator run on the pieces of the clone while the variable still holds the original, and assigns \
+          the clone back, so every collection the statement touches is copied once per statement"),
+        (Family { name: "obs_every_rows_append", kind: Kind::List, setup: ROWS_SETUP, work: "for (i <- 0 til qr) every qx[:] append= i",
+            check: "[len(qx), sum(qx map len), sum(qx map sum)]", expect: |s| format!("[{},{},{}]", s.r, 2 * s.r * s.r, s.r * tri(s.r)), check_alias: "[len(qy), sum(qy map len), sum(qy map sum)]", expect_alias: |s| format!("[{},{},0]", s.r, s.r * s.r),
+            nelem: rr_plus_r, k: rr, copied: |s| (0, s.r * s.r + s.r), in_model: false },
+         "`every` op-assign is copy-on-write by construction on the unchanged tree: modify_every reads the variable into a local \
+          clone, lets the operator run on the pieces of the clone while the variable still holds the original, and assigns \
+          the clone back, so every collection the statement touches is copied once per statement"),
     ]
 }
 
 /// declared type of `qx` in the `@typed` variant of a family
 fn declared_type(name: &str) -> &'static str {
     match name {
-        "uc_note" | "uc_note_new" | "uc_dict_list" | "uc_addkey" => return "dict",
-        "uc_struct_push" | "uc_struct_seti" | "pp_struct" | "dd_struct_pop" | "dd_struct_remove" | "mg_group_struct" => return "Foo",
+        "uc_note" | "uc_note_new" | "uc_dict_list" | "uc_addkey" | "uc_wd_push" | "and_dict_addkey" => return "dict",
+        "and_int" => return "int",
+        "wd_nested_list" => return "list",
+        "uc_struct_push" | "uc_struct_seti" | "pp_struct" | "dd_struct_pop" | "dd_struct_remove" | "mg_group_struct" | "wd_struct" => return "Foo",
         "dd_list" | "mg_group_nested" | "mg_upsert_list" | "tq_sort" | "tq_reverse" => return "list",
         "uc_vec" => return "vector",
         "uc_bytes" => return "bytes",
@@ -693,8 +804,8 @@ fn declared_type(name: &str) -> &'static str {
     }
     let p = name.split('_').next().unwrap_or("");
     match p {
-        "list" | "rows" | "wide" | "ld" | "uc" | "pp" | "nl" => "list",
-        "dict" | "dk" | "dld" | "defdict" | "dd" | "pd" | "mg" | "tq" => "dict",
+        "list" | "rows" | "wide" | "ld" | "uc" | "pp" | "nl" | "and" | "and3" | "every" => "list",
+        "dict" | "dk" | "dld" | "defdict" | "dd" | "pd" | "mg" | "tq" | "wd" => "dict",
         "vec" => "vector",
         "bytes" => "bytes",
         "str" => "str",
@@ -1091,7 +1202,10 @@ fn main() {
          capacity boundary with n = 2^m exactly; pop / remove / consume through default dicts ({{:[]}}, nested, in a struct \
          field, in a list), plain dicts, struct fields and nested lists; container-merging builtins as op-assign \
          operators on a large left operand: ||++ (top level, in a list, struct field, under a dict key), ||+, ||-, \
-         ||, --, &&, discard, insert, |.., .= reverse) x (variable declared with `:=`, declared with a type annotation `qx: list = ..` = `@typed`) x \
+         ||, --, &&, discard, insert, |.., .= reverse; less common lvalue forms of op-assign: with-default target \
+         (d[k] = default) f= v with the key present (append, ++, |., +, a user closure; nested in a list, under a dict key, \
+         in a struct field) and absent, `and` targets (a and b) f= v on variables, rows, dict entries, three targets, \
+         unpacking target (a, b) map= f) x (variable declared with `:=`, declared with a type annotation `qx: list = ..` = `@typed`) x \
          (unaliased, once-aliased) x sizes n0={}, 2 n0, 4 n0 with k = n \
          statements, each in a fresh interpreter; bytes requested from the global allocator during evaluate() of the \
          workload only; a case is one (family, variant, size) measurement; plus the quadratic control (self-test)",
